@@ -9,12 +9,7 @@ vars == <<i, nbad>>
 Judge(o) ==
     (IF o.panic THEN {"C10.NoPanic"} ELSE {})
     \cup (IF o.same THEN {} \* nothing is converted or buffered on a pass-through route
-          ELSE Verdict([wire |-> o.wire, plain |-> o.plain, recoded |-> o.recoded], o.scn.L, o.ok, o.delivered, o.code, o.held)
-               \* on the decode / re-encode path every representation is held in memory: one over the limit must fail the RPC
-               \cup (IF o.scn.pairing.name = "transform" /\ o.ok /\ o.delivered
-                        /\ MustFail("transform", [wire |-> o.wire, plain |-> o.plain, recoded |-> o.recoded], o.scn.L)
-                     THEN {"C10.HeldRepresentationOverLimitDelivered"} ELSE {}))
-
+          ELSE Verdict([wire |-> o.wire, plain |-> o.plain, recoded |-> o.recoded], o.scn.L, o.ok, o.delivered, o.code, o.held))
 Init == i = 1 /\ nbad = 0
 Consume ==
     /\ i <= Len(Trace)
